@@ -420,6 +420,102 @@ def pairs_exhaustive(vc):
     vc.ensures("each_chain_in_at_most_one_pair_all_outcomes", worst is None and total > 200)
 
 
+@bounded("C08", "swap_rule_native", native_runs=30)
+def swap_rule_native(vc):
+    """the real swap() on scripted connections and a scripted uniform variate: a proposed pair is exchanged exactly when
+    u <= exp((1/T_i - 1/T_j)(L_j - L_i)), also when a chain sits at log-density -inf (started outside the support: the exponent is
+    then +inf or -inf and the exchange certain or impossible); what each chain is sent is the other's point with the other's
+    UNtempered log-density; unexchanged chains are sent nothing"""
+    import random as pyrandom
+    import inference.mcmc.parallel as par
+    seed = vc.int("seed", lo=0, hi=10 ** 6)
+    rng = np.random.default_rng(seed)
+    pyrandom.seed(seed)
+    N = vc.choice("N_chains", [2, 3, 2, 3, 4, 5])
+    temps = np.exp(rng.uniform(0, 2.5, size=N))
+    if vc.bool("sorted_ladder"):
+        temps = np.sort(temps)
+    temps[0] = 1.0
+    L = rng.normal(size=N) * 3
+    n_inf = vc.choice("chains_at_minus_infinity", [0, 0, 1, 2])
+    for k in rng.choice(N, size=min(n_inf, N), replace=False):
+        L[k] = -np.inf
+    pos = [rng.normal(size=2) for _ in range(N)]
+    us = list(rng.uniform(size=N))
+
+    class Conn:
+        def __init__(self, k):
+            self.k, self.sent = k, []
+
+        def send(self, msg):
+            self.sent.append(msg)
+
+        def recv(self):
+            return pos[self.k], L[self.k] / temps[self.k]          # (a chain holds its log-density divided by its temperature)
+
+    class Rng:
+        def __init__(self):
+            self.drawn = []
+
+        def random(self):
+            u = us[len(self.drawn)]
+            self.drawn.append(u)
+            return u
+
+        def shuffle(self, x):
+            rng.shuffle(x)
+
+    pt = par.ParallelTempering.__new__(par.ParallelTempering)
+    pt.N_chains = N
+    pt.inv_temps = [1.0 / t for t in temps]
+    pt.temperatures = list(temps)
+    pt.connections = [Conn(k) for k in range(N)]
+    pt.rng = Rng()
+    pt.attempted_swaps = np.identity(N)
+    pt.successful_swaps = np.zeros([N, N])
+    with np.errstate(all="ignore"):
+        pt.swap()
+    pairs = [(i, j) for i in range(N) for j in range(i + 1, N) if pt.attempted_swaps[i, j] > 0 or pt.attempted_swaps[j, i] > 0]
+    flat = [k for p in pairs for k in p]
+    vc.ensures("each_chain_in_at_most_one_pair", len(flat) == len(set(flat)))
+    ok_rule, ok_msg = True, True
+    exchanged = set()
+    # the variates are consumed in the order the pairs are tested: recover it from the messages / counters pair by pair
+    for (i, j) in pairs:
+        got_i = [m for m in pt.connections[i].sent if m.get("task") == "update_position"]
+        got_j = [m for m in pt.connections[j].sent if m.get("task") == "update_position"]
+        did = bool(got_i) or bool(got_j)
+        if np.isinf(L[i]) and np.isinf(L[j]):
+            continue                                              # (-inf) - (-inf): the rule is undefined
+        with np.errstate(all="ignore"):
+            expo = (1.0 / temps[i] - 1.0 / temps[j]) * (L[j] - L[i])
+        if expo >= 0:
+            ok_rule = ok_rule and did                             # certain exchange
+        elif expo == -np.inf:
+            ok_rule = ok_rule and not did
+        else:
+            # some variate of the script decides it; with one pair there is only one
+            if len(pairs) == 1 and len(pt.rng.drawn) == 1:
+                ok_rule = ok_rule and (did == (us[0] <= np.exp(expo)))
+        if did:
+            exchanged.update((i, j))
+            ok_msg = ok_msg and len(got_i) == 1 and len(got_j) == 1 \
+                and np.array_equal(got_i[0]["position"], pos[j]) and np.array_equal(got_j[0]["position"], pos[i]) \
+                and _close(got_i[0]["probability"], L[j]) and _close(got_j[0]["probability"], L[i]) \
+                and pt.successful_swaps[i, j] + pt.successful_swaps[j, i] == 1
+    for k in range(N):
+        if k not in exchanged:
+            ok_msg = ok_msg and not [m for m in pt.connections[k].sent if m.get("task") == "update_position"]
+    vc.ensures("pair_exchanged_exactly_when_the_rule_says", bool(ok_rule))
+    vc.ensures("exchanged_chains_receive_each_others_point_and_untempered_logprob_others_nothing", bool(ok_msg))
+
+
+def _close(a, b):
+    if np.isinf(b):
+        return a == b
+    return abs(a - b) <= 1e-9 * max(1.0, abs(b))
+
+
 def _delayed_worker(delays):
     import inference.mcmc.parallel as par
     real = par.tempering_process.__wrapped__ if hasattr(par.tempering_process, "__wrapped__") else par.tempering_process
